@@ -280,6 +280,85 @@ def g_residue_end_clip(chk, P, D, sk):
             chk.ob(RULE, k, f'residue-end-clipped#{m}', ok, F.where(e), msg)
             m += 1
     chk.require(n >= 2, 'no decode-side read of vorbis_info_residue0.end found')
+    # the bound matches the way the function addresses the vectors: a decoder that hands `in[j]+offset` to a per-vector
+    # routine works on vectors of pcmend/2 values each, whatever the channel count; the interleaved decoder (type 2) works on
+    # ch*pcmend/2 values.  The bound must (not) depend on the channel-count parameter accordingly.
+    m = 0
+    for k in sorted(D.results):
+        if not D.ctx[k].seen or k in D.unp or k in D.ungated_list:
+            continue
+        F = P.fn[k]
+        if not F.file.endswith('res0.c'):
+            continue
+        ints = [p_ for p_ in F.params if absint.int_type_range(p_['t'])]
+        il = [c for c in F.calls('vorbis_book_decodevv_add')]
+        pc = [c for c in F.calls() if 'param' in F.ex[c]['callee']]
+        if not il and not pc:
+            continue
+        if il:
+            a = F.ex[F.strip_casts(F.ex[il[0]]['c'][3])] if len(F.ex[il[0]].get('c', [])) > 3 else None
+            chid = a['decl'].get('id') if a is not None and a['k'] == 'ref' else None
+            mode = 'interleaved'
+        else:
+            chid = ints[0]['id'] if len(ints) == 1 else None
+            mode = 'per-channel'
+        if chid is None:
+            continue
+        defs = common.single_defs(F)
+
+        def depends(G, e, chmap, depth=0):
+            """does expression e of function G depend on the channel count (chmap: local/param id of G -> True)"""
+            if depth > 6:
+                return False
+            gdefs = common.single_defs(G)
+            for q in G.walk(e):
+                nd = G.ex[q]
+                if nd['k'] == 'ref' and nd['decl'].get('kind') in ('var', 'param'):
+                    vid = nd['decl'].get('id')
+                    if chmap.get(vid):
+                        return True
+                    d_ = gdefs.get(vid)
+                    if d_ is not None and d_ != e and depends(G, d_, chmap, depth + 1):
+                        return True
+                if nd['k'] == 'call' and 'd' in nd['callee']:
+                    H = P.get(nd['callee']['d'], G)
+                    if H is not None and H.static and H.file == G.file:
+                        hmap = {}
+                        for i_, a_ in enumerate(nd.get('c', [])):
+                            if i_ < len(H.params) and depends(G, a_, chmap, depth + 1):
+                                hmap[H.params[i_]['id']] = True
+                        for r_ in cfg.returns(H):
+                            rc = H.ex[r_].get('c', [])
+                            if rc and depends(H, rc[0], hmap, depth + 1):
+                                return True
+            return False
+        # the value the partition range is computed from: every expression that reads info->end in this function or in a
+        # file-local helper it calls
+        srcs = []
+        for e in sorted(F.pos):
+            nd = F.ex[e]
+            if nd['k'] == 'member' and nd.get('record') == 'vorbis_info_residue0' and nd['field'] == 'end':
+                p_ = F.sparent.get(e)
+                while p_ is not None and F.ex[p_]['k'] not in ('cond', 'decl', 'assign', 'call', 'ret'):
+                    p_ = F.sparent.get(p_)
+                if p_ is not None and F.ex[p_]['k'] == 'cond':
+                    srcs.append((F, p_, {chid: True}))
+        for c in F.calls():
+            nd = F.ex[c]
+            if 'd' in nd['callee']:
+                H = P.get(nd['callee']['d'], F)
+                if H is not None and H.static and H.file == F.file and \
+                        any(x['k'] == 'member' and x.get('record') == 'vorbis_info_residue0' and x.get('field') == 'end' for x in H.ex.values()):
+                    srcs.append((F, c, {chid: True}))
+        for (G, e, cm) in srcs:
+            dep = depends(G, e, cm)
+            ok = dep == (mode == 'interleaved')
+            chk.ob(RULE, k, f'residue-end-bound-matches-addressing#{m}', ok, F.where(e),
+                   f'{mode} decoder: the clip bound {"depends" if dep else "does not depend"} on the channel count' if ok else
+                   f'{mode} decoder, but the bound the coded range is clipped to {"depends" if dep else "does not depend"} on the '
+                   f'channel count: {"each vector holds pcmend/2 values however many channels there are; with 3 or more channels the decode writes past them" if mode == "per-channel" else "the interleaved range covers ch*pcmend/2 values"}')
+            m += 1
+    chk.require(m >= 2, 'no residue decoder with a clipped end found')
 
 
 def g_decode_loops(chk, P, D, sk):
